@@ -92,11 +92,15 @@ CLAIMS = {
             "Trusted: powi(2) = x*x; sampler contract; rewards <= 1e4; history link by integer lemma L18 (Verus); reward computation, weighted/argmax selection, MinVariation not under contract.",
             TECH_K, "§3 C18"),
     "C19": ("proof",
-            "Compaction clause only: the coordinate remap used by GSOM compaction (get_offset) is proved strictly monotone on the surviving rows/columns "
-            "(hence injective: compaction cannot merge two nodes) and contracting towards the origin (never grows the map), for every network shape containing the origin "
-            "and both decimation factors; complete loop-free Kani proof over all i32 inputs with |v| <= 2^20. Growth/training/weight clauses are not decided.",
-            "Trusted: Kani/CBMC; Network::compact passes (3,4); network shape contains the origin; contract_graph/Network::remap glue and all training code unverified.",
-            TECH_K + " (loop-free, complete)", "§3 C19"),
+            "Compaction and phase clauses: the coordinate remap used by GSOM compaction (get_offset) is proved strictly monotone on the surviving rows/columns "
+            "(hence injective: compaction cannot merge two nodes) and contracting towards the origin, for every network shape containing the origin "
+            "and both decimation factors (complete loop-free Kani proof over all i32 inputs with |v| <= 2^20, U19a); contract_graph with the real Network container "
+            "operations (get_mut/remove/remap/size/get_nodes/find, get_network_shape): the map never grows, keeps at least four nodes or is left alone, every key equals its node's "
+            "coordinate, lookup finds exactly that node, no node is swallowed by the shift, re-training runs with growth off (bounded: rectangular blocks up to 12 nodes, U19b); "
+            "Rosomaxa::update_phase / selection_phase / optimize_network: phases move only forward, the map is created from every collected individual only once enough were "
+            "collected, exploitation selection size stays in [2,4], compaction only for a map above the size to keep (bounded, U19c). Growth/training/weight clauses are not decided.",
+            "Trusted: Kani/CBMC; array-backed map look-alike; network training (train_on_data, create_network, Network::new, grow_nodes, adjust_weights, distribute_error, mse) is replaced by recorders or not under contract at all: weights/error finiteness and node capacity are NOT decided.",
+            TECH_K + " (U19a loop-free, complete; U19b/U19c bounded)", "§3 C19"),
     "C20": ("model_checking",
             "Distance objective: estimate_leg's quoted delta equals total_distance(after) - total_distance(before) exactly, for empty tour (vehicle ending at a different location than it starts), first/last/open-end leg (bounded <= 1 existing job activity, integer-valued matrix); unassigned-jobs and number-of-tours objectives: quote == change (bounded); total value of served jobs incl. the constructor's estimate closure: quote == change, fitness == minus the total (bounded, U20d); combined cost objective (estimate_route + estimate_activity, TransportCost::cost, ActivityCost::cost vs get_total_cost after update_route_schedule) with equal per-time rates and no waiting: quote == change (bounded <= 1 existing job activity, asymmetric matrix, U20c); lemma L20 (telescoping, any tour length).",
             "Bounded Kani harnesses; the waiting-time correction of CostObjective and the non-additive objectives (work balance, compactness, fast service) are not under contract.",
